@@ -54,7 +54,8 @@ ClockText(v) == Two(v.h) \o <<58>> \o Two(v.mi) \o <<58>> \o Two(v.sec) \o Frac(
 OffText(off) ==
   LET a == IF off < 0 THEN -off ELSE off
   IN <<IF off < 0 THEN 45 ELSE 43>> \o Two(a \div 3600) \o <<58>> \o Two((a \div 60) % 60)
-     \o (IF a % 60 = 0 THEN <<>> ELSE <<58>> \o Two(a % 60))     \* offsets with seconds: outside the property's domain
+     \* the output layout is -07:00: the seconds of an offset such as New York's local mean time (-04:56:02)
+     \* are not printed (such values are outside the domain of the print / parse round trip, C18)
 Format(v) ==
   CASE v.ty = "date"   -> DateText(v)
     [] v.ty = "time"   -> ClockText(v)
@@ -110,20 +111,24 @@ NthSunday(y, m, n) ==
   LET first == DayNumber(y, m, 1)
       toSun == (6 - Weekday(first) + 7) % 7
   IN first + toSun + 7 * (n - 1)
-(* America/New_York: UTC instants of the two transitions of year y, as [day, sod] *)
+(* America/New_York: local mean time until 1883-11-18, the US rule since 2007, not modelled in between *)
+NYLMT == -(4 * 3600 + 56 * 60 + 2)
+(* UTC instants of the two transitions of year y, as [day, sod] *)
 NYStart(y) == [day |-> NthSunday(y, 3, 2), sod |-> 7 * 3600]     \* 02:00 EST = 07:00 UTC
 NYEnd(y)   == [day |-> NthSunday(y, 11, 1), sod |-> 6 * 3600]    \* 02:00 EDT = 06:00 UTC
 Before(a, b) == a.day < b.day \/ (a.day = b.day /\ a.sod < b.sod)
 NYOffsetAtInstant(day, sod) ==
   LET y == CivilOfDay(day).y  p == [day |-> day, sod |-> sod]
-  IN IF y < 2007 THEN OPQ
+  IN IF y < 1883 THEN NYLMT
+     ELSE IF y < 2007 THEN OPQ
      ELSE IF ~Before(p, NYStart(y)) /\ Before(p, NYEnd(y)) THEN -4 * 3600 ELSE -5 * 3600
 (* offset for a LOCAL wall clock time; OPQ inside the gap or the overlap *)
 NYOffsetAtLocal(day, sod) ==
   LET y == CivilOfDay(day).y  p == [day |-> day, sod |-> sod]
       s == [day |-> NthSunday(y, 3, 2), sod |-> 2 * 3600]     \* local 02:00: gap until 03:00
       e == [day |-> NthSunday(y, 11, 1), sod |-> 1 * 3600]    \* local 01:00-02:00 happens twice
-  IN IF y < 2007 THEN OPQ
+  IN IF y < 1883 THEN NYLMT
+     ELSE IF y < 2007 THEN OPQ
      ELSE IF p.day = s.day /\ p.sod >= 2 * 3600 /\ p.sod < 3 * 3600 THEN OPQ
      ELSE IF p.day = e.day /\ p.sod >= 1 * 3600 /\ p.sod < 2 * 3600 THEN OPQ
      ELSE IF ~Before(p, s) /\ Before(p, [day |-> e.day, sod |-> 2 * 3600]) THEN -4 * 3600 ELSE -5 * 3600
@@ -229,7 +234,7 @@ CErr(e) == [ok |-> FALSE, err |-> e]
 LocalExistsOnce(zone, day, sod) == OffsetAtLocal(zone, day, sod) # OPQ
 ToAware(ty, y, mo, d, h, mi, sec, ns, zone) ==
   LET day == DayNumber(y, mo, d)  sod == h * 3600 + mi * 60 + sec
-  IN IF ~IsFixed(zone) /\ (zone # "America/New_York" \/ y < 2008 \/ y > 9998) THEN CErr("opaque")
+  IN IF ~IsFixed(zone) /\ (zone # "America/New_York" \/ (y > 1881 /\ y < 2008) \/ y > 9998) THEN CErr("opaque")
      ELSE LET g   == OffsetAtInstant(zone, day, sod)
               u   == Shift(day, sod, -g)
               g2  == OffsetAtInstant(zone, u.day, u.sod)
